@@ -334,6 +334,40 @@ def twin_products(rng, n):
     return out
 
 
+def leaf_presentations_part():
+    """Every probability leaf over A, B, C (value marks, intervention subscripts, population tags: the family of props/C12.py) in every
+    order of its children and of its parents, under the explicit ordering A, B, C and under no ordering: one canonical form per leaf,
+    and canonicalising it again changes nothing."""
+    import itertools as itt
+    from props import C12
+    canon = concrete.y0mod("y0.mutate.canonicalize_expr")
+    dsl = concrete.y0mod("y0.dsl")
+    fails, n = [], 0
+    orderings = [[dsl.Variable(x) for x in "ABC"], None]
+    for leaf in C12.leaf_family():
+        if len(leaf.children) < 2 and len(leaf.parents) < 2:
+            continue
+        for o in orderings:
+            outs = set()
+            for ch in itt.permutations(leaf.children):
+                for pa in itt.permutations(leaf.parents):
+                    p = leaf._new(dsl.Distribution(children=tuple(ch), parents=tuple(pa)))
+                    n += 1
+                    try:
+                        c = canon.canonicalize(p, o)
+                    except Exception as ex:
+                        fails.append(f"canonicalize({p}) raised {type(ex).__name__}: {ex}")
+                        continue
+                    outs.add(c)
+                    if canon.canonicalize(c, o) != c:
+                        fails.append(f"not idempotent on a leaf: {p} -> {c} -> {canon.canonicalize(c, o)}")
+            if len(outs) > 1:
+                fails.append(f"presentation dependent on a leaf (ordering {'A,B,C' if o else 'None'}): " + " vs ".join(sorted(map(str, outs))[:3]))
+            if len(fails) > 5:
+                return n, fails
+    return n, fails
+
+
 def gen_blobs(tier, rng, n):
     import base64
     import pickle
@@ -387,6 +421,14 @@ def extra(rep, repo, registry, known_open):
     rep.extra_parts.append({"name": "normal-form-properties", "kind": "bounded", "decides": True, "evaluations": len(blobs),
                             "scope": "sampled well-scoped expressions of depth <= 3 over A, B, C and random orderings; idempotence outside class K2, permutation "
                                      f"invariance outside class K1 ({nt} of the first 400 samples are outside K1)", "failures": len(fails), "wall_s": round(time.time() - t0, 1)})
+    n_leaf, leaf_fails = leaf_presentations_part()
+    rep.extra_parts.append({"name": "leaf-presentations", "kind": "bounded", "decides": True, "evaluations": n_leaf,
+                            "scope": "every probability leaf over A, B, C with value marks / intervention subscripts / population tag, all orders of children and parents, "
+                                     "ordering A,B,C and None: a single canonical form, idempotent", "failures": len(leaf_fails)})
+    if leaf_fails and not fails:
+        path = pipeline.write_replay("C11", "bounded.normal-form", {"property": "C11", "obligation": "y0.mutate.canonicalize_expr.canonicalize/bounded.normal-form",
+                                                                    "why": leaf_fails[0], "leaf_part": True})
+        rep.violations.append(("y0.mutate.canonicalize_expr.canonicalize/bounded.normal-form", path, ""))
     if fails:
         b, why = min(fails, key=lambda f: len(f[1]))
         path = pipeline.write_replay("C11", "bounded.normal-form", {"property": "C11", "obligation": QUAL + "/bounded.normal-form", "why": why, "blob": b})
@@ -421,6 +463,13 @@ def extra(rep, repo, registry, known_open):
 
 
 def replay(payload, path):
+    if payload.get("leaf_part"):
+        n, fails = leaf_presentations_part()
+        print(json.dumps({"recorded": payload["why"], "now": fails[:2]}))
+        if fails:
+            print(f"VIOLATION property=C11 replay={path}")
+            return 1
+        return 0
     why = run_case(payload["blob"]) if "hash-seed" not in payload["obligation"] else (hash_seed_part([payload["blob"]])[0] and "differs")
     print(json.dumps({"now": why}))
     if why:
